@@ -57,10 +57,6 @@ func Harness_C01_flow_through_transport() {
 		fieldSensitive = verifPick("field-sensitive", 0, 1) == 1
 		onDemand = verifPick("on-demand", 0, 1) == 1
 	}
-	// The deferred-store transport reads the cell after the RunDefers instruction inside the same function, a shape the
-	// Go compiler never produces; with field sensitivity the traversal did not terminate on it (being triaged with
-	// realistic programs, DESIGN section 5 "FS-2"): outside the field-sensitive claim.
-	verifAssume(!(fieldSensitive && df.VerifDeferStoreTransport(t)))
 	w := df.VerifBuildDirectFlow([]int{t}, []int{variant}, split, sinkForm, stringData)
 	// field-sensitive, string data through a map inside a callee, sink receiving a struct: recorded finding
 	known := fieldSensitive && stringData && df.VerifMapTransport(t) && split == 0 && sinkForm == 1
